@@ -40,7 +40,7 @@ def rows_from_traces(ctx, files, scns, meta):
                 m = by.get(run)
                 if m is not None:
                     rows.append(dict(i=m["i"], n=m["n"], sched=m["sched"], pers=m["pers"], txs=fin["txs"], pipelined=fin["pipelined"], samearr=not m["sched"].startswith("dc"), fam=list(m["fam"]), whole=m["whole"], run=run, completed=True))
-            elif ln.startswith('{"e":"End"') and not final and '"san": true' in ln.replace('"san":true', '"san": true'):
+            elif (ln.startswith('{"e":"End"') or ln.startswith('{"e": "End"')) and not final and '"san": true' in ln.replace('"san":true', '"san": true'):
                 # the recorder died in this execution (sanitizer abort, crash): there is no result to compare; TLC judges the row as neither
                 # faithful nor invariant instead of the execution silently dropping out of the comparison
                 m = by.get(run)
